@@ -1339,7 +1339,10 @@ class BayesianNetwork(DAG):
 
             for cpd in virtual_evidence:
                 var = cpd.variables[0]
-                new_var = "__" + var
+                # One new helper node per virtual evidence (a variable can have several).
+                new_var = "__" + str(var)
+                while new_var in model.nodes():
+                    new_var += "_"
                 model.add_edge(var, new_var)
                 values = compat_fns.get_compute_backend().vstack(
                     (cpd.values, 1 - cpd.values)
